@@ -37,7 +37,11 @@ def mp_taylor(f_mp, coeffs, D=None, dps=MP_DPS):
 
         def g(t):
             return f_mp(mpmath.polyval(cs, t))
-        out = mpmath.taylor(g, 0, D - 1)
+        try:
+            out = mpmath.taylor(g, 0, D - 1)
+        except (ValueError, ZeroDivisionError, ArithmeticError) as e:
+            # mpmath could not evaluate the reference (e.g. hypsum() failed to converge): no verdict
+            raise Inconclusive('mpmath reference failed: %s' % (str(e)[:120],))
         res = []
         for o in out:
             if isinstance(o, mpc) or (hasattr(o, 'imag') and o.imag != 0):
@@ -60,7 +64,10 @@ def mp_taylor_multi(f_mp, coeff_list, D, dps=MP_DPS):
 
         def g(t):
             return f_mp(*[mpmath.polyval(cs, t) for cs in css])
-        out = mpmath.taylor(g, 0, D - 1)
+        try:
+            out = mpmath.taylor(g, 0, D - 1)
+        except (ValueError, ZeroDivisionError, ArithmeticError) as e:
+            raise Inconclusive('mpmath reference failed: %s' % (str(e)[:120],))
         res = []
         for o in out:
             if isinstance(o, mpc):
@@ -81,7 +88,10 @@ def mp_compose(deriv_seq, coeffs, dps=MP_DPS):
     mp.dps = dps + 4 * D
     try:
         x = [_to_mp(c) for c in coeffs]
-        a = deriv_seq(x[0], D)
+        try:
+            a = deriv_seq(x[0], D)
+        except (ValueError, ZeroDivisionError, ArithmeticError) as e:
+            raise Inconclusive('mpmath reference failed: %s' % (str(e)[:120],))
         u = [mpf(0)] + x[1:]
         y = [mpf(0)] * D
         pw = [mpf(1)] + [mpf(0)] * (D - 1)
